@@ -54,6 +54,7 @@ class Check:
         self.explanation = ""
         self.analysed = {}
         self.distinct = set()
+        self.floor_failures = []
 
     # ------------------------------------------------------------ recording
     def rule(self, rid, text):
@@ -86,6 +87,13 @@ class Check:
             f.detail.setdefault("more", 0)
             f.detail["more"] += 1
         self.distinct.add((rid, str(key)))
+
+    def floor(self, ok: bool, message: str):
+        """Instance-count floor: a rule that no longer sees its subject must not pass silently.
+        A failed floor is an analysis error -- unless the run found violations, which are then
+        the more specific report."""
+        if not ok:
+            self.floor_failures.append(message)
 
     def sample(self, s):
         if len(self.samples) < 12:
